@@ -3,7 +3,7 @@ import vlib
 CFG = dict(
     imports=["From Verif.C45 Require Import Model Spec."],
     checker="check_any",
-    n=dict(quick=300, thorough=6000),
+    n=dict(quick=300, thorough=3600),
     shard=50,
     rule="insert/remove/lookup/len histories (8-37 ops) over small pools of node names (incl. prefixes of each other, the empty "
          "string, an embedded NUL) on the real hashring.Ring with replicas in {1,2,3,5,8,100} and probes in {1,2,3,5}; hash = the "
